@@ -17,7 +17,8 @@ Record sym := mksym {
   s_ports : list (nat * list pref);     (* spec ports: port name -> references *)
   s_node : bool;                        (* has a node *)
   s_outs : list nat;                    (* out-port names the node offers *)
-  s_ins : list nat                      (* in-port names the node offers *)
+  s_ins : list nat;                     (* in-port names the node offers *)
+  s_fail : option nat                   (* as a lifecycle responder: the error it answers with (None = success) *)
 }.
 
 (* an entry of Table.references[target id][in-port]: who refers to it *)
@@ -87,60 +88,64 @@ Definition add_link (ls : list (nat * nat * nat * nat)) (l : nat * nat * nat * n
 Definition mem (x : nat) (l : list nat) : bool := existsb (Nat.eqb x) l.
 
 (* links(sb), first half: sb's own references *)
+Definition link_own_ref (sb : sym) (outname : nat) (st : tstate) (p : pref) : tstate :=
+  match resolve_sym st (s_ns sb) p with
+  | Some ref =>
+      if Nat.eqb (s_ns ref) (s_ns sb) then
+        let ls := if mem outname (s_outs sb) && s_node sb && s_node ref && mem (pr_port p) (s_ins ref)
+                  then add_link (links st) (s_inst sb, outname, s_inst ref, pr_port p) else links st in
+        mkt (syms st) (nsmap st)
+            (add_ref (refs st) (s_id ref) (pr_port p) (mkrref (s_id sb) (pr_name p) outname))
+            ls (events st)
+      else st
+  | None => st
+  end.
+
 Definition links_own (st : tstate) (sb : sym) : tstate :=
-  fold_left (fun st (np : nat * list pref) =>
-    fold_left (fun st (p : pref) =>
-      match resolve_sym st (s_ns sb) p with
-      | Some ref =>
-          if Nat.eqb (s_ns ref) (s_ns sb) then
-            let ls := if mem (fst np) (s_outs sb) && s_node sb && s_node ref && mem (pr_port p) (s_ins ref)
-                      then add_link (links st) (s_inst sb, fst np, s_inst ref, pr_port p) else links st in
-            mkt (syms st) (nsmap st)
-                (add_ref (refs st) (s_id ref) (pr_port p) (mkrref (s_id sb) (pr_name p) (fst np)))
-                ls (events st)
-          else st
-      | None => st
-      end) (snd np) st) (s_ports sb) st.
+  fold_left (fun st (np : nat * list pref) => fold_left (link_own_ref sb (fst np)) (snd np) st) (s_ports sb) st.
 
 (* links(sb), second half: references of every present symbol of the namespace to sb *)
-Definition links_in (st : tstate) (sb : sym) : tstate :=
-  fold_left (fun st (ref : sym) =>
-    if negb (Nat.eqb (s_ns ref) (s_ns sb)) then st else
-    fold_left (fun st (np : nat * list pref) =>
-      fold_left (fun st (p : pref) =>
-        if opt_eqb (pr_id p) (Some (s_id sb)) ||
-           (match pr_name p with Some n => opt_eqb (Some n) (s_name sb) | None => false end)
-        then
-          let ls := if mem (fst np) (s_outs ref) && s_node ref && s_node sb && mem (pr_port p) (s_ins sb)
-                    then add_link (links st) (s_inst ref, fst np, s_inst sb, pr_port p) else links st in
-          mkt (syms st) (nsmap st)
-              (add_ref (refs st) (s_id sb) (pr_port p) (mkrref (s_id ref) (pr_name p) (fst np)))
-              ls (events st)
-        else st) (snd np) st) (s_ports ref) st) (syms st) st.
+Definition link_in_ref (sb ref : sym) (outname : nat) (st : tstate) (p : pref) : tstate :=
+  if opt_eqb (pr_id p) (Some (s_id sb)) ||
+     (match pr_name p with Some n => opt_eqb (Some n) (s_name sb) | None => false end)
+  then
+    let ls := if mem outname (s_outs ref) && s_node ref && s_node sb && mem (pr_port p) (s_ins sb)
+              then add_link (links st) (s_inst ref, outname, s_inst sb, pr_port p) else links st in
+    mkt (syms st) (nsmap st)
+        (add_ref (refs st) (s_id sb) (pr_port p) (mkrref (s_id ref) (pr_name p) outname))
+        ls (events st)
+  else st.
+
+Definition link_in_sym (sb : sym) (st : tstate) (ref : sym) : tstate :=
+  if negb (Nat.eqb (s_ns ref) (s_ns sb)) then st
+  else fold_left (fun st (np : nat * list pref) => fold_left (link_in_ref sb ref (fst np)) (snd np) st) (s_ports ref) st.
+
+Definition links_in (st : tstate) (sb : sym) : tstate := fold_left (link_in_sym sb) (syms st) st.
 
 (* unlinks(sb) *)
+Definition unlink_ref (sb : sym) (outname : nat) (st : tstate) (p : pref) : tstate :=
+  match resolve_sym st (s_ns sb) p with
+  | Some ref =>
+      let ls := filter (fun x : nat * nat * nat * nat =>
+                          let '(a, b, c, d) := x in
+                          negb (Nat.eqb a (s_inst sb) && Nat.eqb b outname && Nat.eqb c (s_inst ref) && Nat.eqb d (pr_port p)))
+                       (links st) in
+      let rs := map (fun e : nat * list (nat * list rref) =>
+                  if Nat.eqb (fst e) (s_id ref) then
+                    (fst e, flat_map (fun ir : nat * list rref =>
+                               if Nat.eqb (fst ir) (pr_port p) then
+                                 match filter (fun r => negb (Nat.eqb (rr_id r) (s_id sb)) || negb (Nat.eqb (rr_port r) outname)) (snd ir) with
+                                 | [] => []
+                                 | keep => [(fst ir, keep)]
+                                 end
+                               else [ir]) (snd e))
+                  else e) (refs st) in
+      mkt (syms st) (nsmap st) rs ls (events st)
+  | None => st
+  end.
+
 Definition unlinks (st : tstate) (sb : sym) : tstate :=
-  let st1 := fold_left (fun st (np : nat * list pref) =>
-    fold_left (fun st (p : pref) =>
-      match resolve_sym st (s_ns sb) p with
-      | Some ref =>
-          let ls := filter (fun x : nat * nat * nat * nat =>
-                              let '(a, b, c, d) := x in
-                              negb (Nat.eqb a (s_inst sb) && Nat.eqb b (fst np) && Nat.eqb c (s_inst ref) && Nat.eqb d (pr_port p)))
-                           (links st) in
-          let rs := map (fun e : nat * list (nat * list rref) =>
-                      if Nat.eqb (fst e) (s_id ref) then
-                        (fst e, flat_map (fun ir : nat * list rref =>
-                                   if Nat.eqb (fst ir) (pr_port p) then
-                                     match filter (fun r => negb (Nat.eqb (rr_id r) (s_id sb)) || negb (Nat.eqb (rr_port r) (fst np))) (snd ir) with
-                                     | [] => []
-                                     | keep => [(fst ir, keep)]
-                                     end
-                                   else [ir]) (snd e))
-                      else e) (refs st) in
-          mkt (syms st) (nsmap st) rs ls (events st)
-      | None => st
-      end) (snd np) st) (s_ports sb) st in
+  let st1 := fold_left (fun st (np : nat * list pref) => fold_left (unlink_ref sb (fst np)) (snd np) st) (s_ports sb) st in
   mkt (syms st1) (nsmap st1) (filter (fun e => negb (Nat.eqb (fst e) (s_id sb))) (refs st1)) (links st1) (events st1).
 
 (* linked(sb): sb and everything that (transitively) refers to it, referenced symbols first *)
@@ -229,12 +234,58 @@ Definition is_activated (st : tstate) (sb : sym) : bool :=
 
 Definition log (st : tstate) (e : ev) : tstate := mkt (syms st) (nsmap st) (refs st) (links st) (events st ++ [e]).
 
-(* load / unload (lifecycle flows are added by Lifecycle.v; here hooks and flows succeed) *)
-Definition load (st : tstate) (sb : sym) : tstate :=
-  fold_left (fun st s => if is_activated st s then log st (ELoad (s_inst s)) else st) (linked st sb) st.
+(* exec(sb, port): the lifecycle flow attached to one of the symbol's init/begin/term/final ports.
+   Every reference of that port that resolves to a present symbol of the namespace with that in-port
+   receives the symbol's spec; an error answer aborts.  (The harness attaches at most one responder.) *)
+Definition port_init := 10.
+Definition port_begin := 11.
+Definition port_term := 12.
+Definition port_final := 13.
 
-Definition unload (st : tstate) (sb : sym) : tstate :=
-  fold_left (fun st s => if is_activated st s then log st (EUnload (s_inst s)) else st) (rev (linked st sb)) st.
+Definition exec (st : tstate) (sb : sym) (pname : nat) : tstate * option nat :=
+  let prefs := match find (fun np : nat * list pref => Nat.eqb (fst np) pname) (s_ports sb) with
+               | Some np => snd np | None => [] end in
+  fold_left (fun (acc : tstate * option nat) (p : pref) =>
+    let '(st, err) := acc in
+    match err with
+    | Some _ => acc
+    | None =>
+        match resolve_sym st (s_ns sb) p with
+        | Some ref =>
+            if Nat.eqb (s_ns ref) (s_ns sb) && s_node ref && mem (pr_port p) (s_ins ref)
+            then (log st (EExec (s_inst sb) pname), s_fail ref)
+            else acc
+        | None => acc
+        end
+    end) prefs (st, None).
+
+(* activation of one symbol: init flow, load hooks, begin flow; deactivation: term flow, unload hooks, final flow *)
+Definition activate (st : tstate) (s : sym) : tstate * option nat :=
+  match exec st s port_init with
+  | (st1, Some e) => (st1, Some e)
+  | (st1, None) => exec (log st1 (ELoad (s_inst s))) s port_begin
+  end.
+
+Definition deactivate (st : tstate) (s : sym) : tstate * option nat :=
+  match exec st s port_term with
+  | (st1, Some e) => (st1, Some e)
+  | (st1, None) => exec (log st1 (EUnload (s_inst s))) s port_final
+  end.
+
+(* run f over the symbols in order, skipping those whose closure is incomplete, until the first error *)
+Definition life_fold_from (f : tstate -> sym -> tstate * option nat) (l : list sym) (acc0 : tstate * option nat) : tstate * option nat :=
+  fold_left (fun (acc : tstate * option nat) (s : sym) =>
+    let '(st, err) := acc in
+    match err with
+    | Some _ => acc
+    | None => if is_activated st s then f st s else acc
+    end) l acc0.
+
+Definition life_fold (f : tstate -> sym -> tstate * option nat) (l : list sym) (st : tstate) : tstate * option nat :=
+  life_fold_from f l (st, None).
+
+Definition load (st : tstate) (sb : sym) : tstate * option nat := life_fold activate (linked st sb) st.
+Definition unload (st : tstate) (sb : sym) : tstate * option nat := life_fold deactivate (rev (linked st sb)) st.
 
 (* Symbol.Close: the node closes; in-ports run their close hooks, which unlink every out-port that
    was linked to them; out-ports drop their links *)
@@ -245,57 +296,76 @@ Definition close_sym (st : tstate) (sb : sym) : tstate :=
                negb (Nat.eqb a (s_inst sb)) && negb (Nat.eqb c (s_inst sb))) (links st1))
       (events st1).
 
-Definition free (st : tstate) (id : nat) : tstate * bool :=
+Inductive tres := TDone (found : bool) | TFail (e : nat).
+
+Definition free (st : tstate) (id : nat) : tstate * tres :=
   match find_sym st id with
-  | None => (st, false)
+  | None => (st, TDone false)
   | Some sb =>
-      let st1 := unload st sb in
-      let st2 := unlinks st1 sb in
-      let st3 := close_sym st2 sb in
-      let nsm := match s_name sb with
-                 | Some n => filter (fun e : nat * nat * nat => negb (Nat.eqb (fst (fst e)) (s_ns sb) && Nat.eqb (snd (fst e)) n)) (nsmap st3)
-                 | None => nsmap st3
-                 end in
-      (mkt (filter (fun s => negb (Nat.eqb (s_id s) id)) (syms st3)) nsm (refs st3) (links st3) (events st3), true)
+      match unload st sb with
+      | (st1, Some e) => (st1, TFail e)
+      | (st1, None) =>
+          let st2 := unlinks st1 sb in
+          let st3 := close_sym st2 sb in
+          let nsm := match s_name sb with
+                     | Some n => filter (fun e : nat * nat * nat => negb (Nat.eqb (fst (fst e)) (s_ns sb) && Nat.eqb (snd (fst e)) n)) (nsmap st3)
+                     | None => nsmap st3
+                     end in
+          (mkt (filter (fun s => negb (Nat.eqb (s_id s) id)) (syms st3)) nsm (refs st3) (links st3) (events st3), TDone true)
+      end
   end.
 
-Definition insert (st : tstate) (sb : sym) : tstate :=
-  let st0 := fst (free st (s_id sb)) in
-  let nsm := match s_name sb with
-             | Some n => (s_ns sb, n, s_id sb) ::
-                         filter (fun e : nat * nat * nat => negb (Nat.eqb (fst (fst e)) (s_ns sb) && Nat.eqb (snd (fst e)) n)) (nsmap st0)
-             | None => nsmap st0
-             end in
-  let st1 := mkt (syms st0 ++ [sb]) nsm (refs st0) (links st0) (events st0) in
-  let st2 := links_in (links_own st1 sb) sb in
-  load st2 sb.
+Definition insert (st : tstate) (sb : sym) : tstate * tres :=
+  match free st (s_id sb) with
+  | (st0, TFail e) => (st0, TFail e)
+  | (st0, TDone _) =>
+      let nsm := match s_name sb with
+                 | Some n => (s_ns sb, n, s_id sb) ::
+                             filter (fun e : nat * nat * nat => negb (Nat.eqb (fst (fst e)) (s_ns sb) && Nat.eqb (snd (fst e)) n)) (nsmap st0)
+                 | None => nsmap st0
+                 end in
+      let st1 := mkt (syms st0 ++ [sb]) nsm (refs st0) (links st0) (events st0) in
+      let st2 := links_in (links_own st1 sb) sb in
+      match load st2 sb with
+      | (st3, Some e) => (st3, TFail e)
+      | (st3, None) => (st3, TDone true)
+      end
+  end.
 
-(* Close: frees every symbol; symbols nobody refers to first *)
-Definition close_table (st : tstate) : tstate :=
-  let order := fix order (fuel : nat) (st0 : tstate) (remaining : list sym) (acc : list nat) : list nat :=
+(* Close: frees every symbol; symbols nobody refers to first; the first error aborts *)
+Definition close_order (st : tstate) : list nat :=
+  (fix order (fuel : nat) (remaining : list sym) (acc : list nat) : list nat :=
     match fuel with
     | O => acc ++ map s_id remaining
     | S f =>
         match find (fun s => forallb (fun ir : nat * list rref =>
-                                 forallb (fun r => mem (rr_id r) acc || negb (existsb (fun x => Nat.eqb (s_id x) (rr_id r)) (syms st0))) (snd ir))
-                               (get_refs st0 (s_id s))) remaining with
-        | Some s => order f st0 (filter (fun x => negb (Nat.eqb (s_id x) (s_id s))) remaining) (acc ++ [s_id s])
+                                 forallb (fun r => mem (rr_id r) acc || negb (existsb (fun x => Nat.eqb (s_id x) (rr_id r)) (syms st))) (snd ir))
+                               (get_refs st (s_id s))) remaining with
+        | Some s => order f (filter (fun x => negb (Nat.eqb (s_id x) (s_id s))) remaining) (acc ++ [s_id s])
         | None => acc ++ map s_id remaining
         end
-    end in
-  fold_left (fun st id => fst (free st id)) (order (S (length (syms st))) st (syms st) []) st.
+    end) (S (length (syms st))) (syms st) [].
+
+Definition close_table (st : tstate) : tstate * tres :=
+  fold_left (fun (acc : tstate * tres) (id : nat) =>
+    match snd acc with
+    | TFail _ => acc
+    | TDone _ => match free (fst acc) id with (st', TFail e) => (st', TFail e) | (st', TDone _) => (st', TDone true) end
+    end) (close_order st) (st, TDone true).
 
 Inductive top :=
 | TInsert (sb : sym)
 | TFree (id : nat)
 | TClose.
 
-Definition t_step (st : tstate) (op : top) : tstate :=
+Definition t_step_res (st : tstate) (op : top) : tstate * tres :=
   match op with
   | TInsert sb => insert st sb
-  | TFree id => fst (free st id)
+  | TFree id => free st id
   | TClose => close_table st
   end.
+
+Definition t_step (st : tstate) (op : top) : tstate := fst (t_step_res st op).
 
 Definition t_run (ops : list top) : tstate := fold_left t_step ops t_init.
 
